@@ -146,6 +146,10 @@ def line_order_bases():
         c = {"kind": "tls", "version": ver, "suite": suite, "seed": 77 + suite, "ep": ep, "history": [[0, 120, 0], [1, 300, 0], [0, 40, 0], [1, 33, 0]], "hs_secrets": True}
         c.update(extra)
         bases.append({"conns": [c], "order": [0], "tseed": 5})
+    # a session and its resumption: two CLIENT_RANDOM lines with different client randoms and the same master secret
+    from checks import c01
+    res = c01.resumed_specs()[0]
+    bases.append({"conns": res["conns"], "order": [0, 1], "tseed": 5})
     q = {"kind": "quic", "suite": 0x1301, "seed": 4242, "ep": dict(ep, cport=40002),
          "steps": [{"op": "data", "d": 0, "pk": [{"fr": [["stream", 0, 50, None, False, True, None]], "gap": 0, "pnl": 0}]},
                    {"op": "data", "d": 1, "pk": [{"fr": [["stream", 0, 90, None, False, True, None]], "gap": 0, "pnl": 0}]}]}
